@@ -664,7 +664,7 @@ Proof.
   { intros H. destruct d; cbn [rt_set_buf rt_buf] in *; xproj; pose proof (X4 H) as H12; destruct H12; congruence. }
   split.
   { destruct d; cbn [rt_set_buf rt_buf] in *; xproj; destruct (x_pc x); try exact I; try exact Hin;
-      try (destruct X5 as [H1 H2]; congruence); try congruence. }
+      try (destruct X5; congruence); try congruence. }
   split; [destruct d; exact X6|]. intros d' o Ho. apply (X7 d'). destruct d, d'; exact Ho.
 Qed.
 
